@@ -16,9 +16,17 @@ SPEC = {
              "pool-wide RPS profile has no known length: `unlimited` (120 s) alone, or a composite of 1-2 short parts (unlimited / const / once / "
              "pause, 1-40 ms, 1-12 tokens; the sections switch while the startup profile is still releasing tokens) and a 120 s tail "
              "(unlimited, or const when a head part is unlimited) - such a profile answers Left() < 0 ('unknown'), which is not "
-             "'finished': it outlasts the startup and every startup token must still become an instance (shots take >= 300 us there); the real engine with recording doubles, 24 cases concurrently per process (sleep-bound). "
+             "'finished': it outlasts the startup and every startup token must still become an instance (shots take >= 300 us there); in two thirds of the cases (all modes but the one with the 60 ms margin) the harness does NOT start the startup profile: the "
+             "engine's first draw does, as in every real run, in half of those behind a gun warm-up of 10-60 ms (guns implement warmup.WarmedUp) - the profile's clock then "
+             "begins no earlier than the call of Engine.Run and the return of the warm-up, and token k is due no earlier than that measured instant + its offset in the profile "
+             "(a clock that ran during the warm-up shows as instances released in a burst); in a quarter of the cases the engine has 1-2 further pools before / after the "
+             "judged one (startup once(1-4) + optionally 1-4 more over 2-30 ms, per-instance profiles of 1-30 shots): ids are numbered from 0 within each pool and every pool "
+             "starts all its tokens; the real engine with recording doubles, 24 cases concurrently per process (sleep-bound). "
              "Non-trivial = >= 2 instances over >= 2 distinct startup instants; distinct = hash of the case."),
-    "floors": {"TestStartup/mode_long": 0.15, "TestStartup/cut_short_ammo": 0.02, "TestStartup/cut_short_creation_failed": 0.03,
+    "floors": {"TestStartup/engine_starts_the_profile": 0.25, "TestStartup/engine_starts_the_profile_after_warmup": 0.12,
+               "TestStartup/warmup_then_startup_spread_in_time": 0.05, "TestStartup/warmup_longer_than_startup_spread": 0.03,
+               "TestStartup/several_pools": 0.1, "TestStartup/several_pools_ge_2_instances_each": 0.07,
+               "TestStartup/mode_long": 0.15, "TestStartup/cut_short_ammo": 0.02, "TestStartup/cut_short_creation_failed": 0.03,
                "TestStartup/composite_startup": 0.3, "TestStartup/all_tokens_started": 0.3,
                "TestStartup/per_instance_profile_shorter_than_startup": 0.019,
                "TestStartup/provider_run_returned_early_ammo_left": 0.077,
@@ -33,7 +41,7 @@ SPEC = {
         "technique": "property-based testing (rapid generators, batch-parallel) of the real engine; validity predicates over measured instants",
         "text": ("Startup profiles are generated, the engine is run with recording doubles, and measured instants are compared: the k-th gun "
                  "creation never precedes the k-th startup token (reference chain of the profile's parts), ids are 0..S-1, S equals the "
-                 "token count unless ammo/shared profile/creation failure/cancel cut the start short (a shared profile that cannot tell how "
+                 "token count (per pool when the engine has several; the profile's clock starts with the pool's instance start, after the gun warm-up) unless ammo/shared profile/creation failure/cancel cut the start short (a shared profile that cannot tell how "
                  "many tokens it has left - unlimited, or a composite with an unlimited part ahead - has not finished), and no instance stops before the "
                  "earliest instant at which ammo ran out, the shared profile was exhausted or the run was cancelled."),
         "note": ("Only measured instants are compared (a timer cannot fire early, so load can only delay creations, which the oracle "
